@@ -544,4 +544,144 @@ theorem installObjs_get (os : Objects) (new : Proc) (q : ObjId) :
     · simp [hk]
     · simp only [hk, if_false]; exact ih
 
+/-! ## titles: encode in `outline_child`, decode in `get_toc` -/
+
+/-- Unicode scalar value = what a Rust `char` can hold -/
+def IsScalar (c : Nat) : Prop := c < 0xD800 ∨ (0xDFFF < c ∧ c < 0x110000)
+
+theorem utf16Lossy_cons_plain (u : Nat) (X : List Nat) (h : u < 0xD800 ∨ 0xDFFF < u) :
+    utf16Lossy (u :: X) = u :: utf16Lossy X := by
+  cases X <;> simp [utf16Lossy, h]
+
+theorem utf16Lossy_cons_pair (hi lo : Nat) (X : List Nat) (h1 : 0xD800 ≤ hi) (h2 : hi < 0xDC00)
+    (h3 : 0xDC00 ≤ lo) (h4 : lo ≤ 0xDFFF) :
+    utf16Lossy (hi :: lo :: X) = (0x10000 + (hi - 0xD800) * 1024 + (lo - 0xDC00)) :: utf16Lossy X := by
+  have a : ¬ (hi < 0xD800 ∨ 0xDFFF < hi) := by omega
+  have b : ¬ 0xDC00 ≤ hi := by omega
+  simp only [utf16Lossy, a, b, if_false, h3, h4, and_self, if_true]
+
+/-- `from_utf16_lossy (encode_utf16 s) = s` for every string (list of scalar values) -/
+theorem utf16_roundtrip : ∀ (cs : List Nat), (∀ c ∈ cs, IsScalar c) → utf16Lossy (utf16Units cs) = cs := by
+  intro cs
+  induction cs with
+  | nil => intro _; rfl
+  | cons c cs ih =>
+    intro h
+    have hc := h c (by simp)
+    have ih' := ih (fun x hx => h x (by simp [hx]))
+    unfold IsScalar at hc
+    by_cases hlt : c < 0x10000
+    · simp only [utf16Units, hlt, if_true]
+      rw [utf16Lossy_cons_plain c _ (by omega), ih']
+    · simp only [utf16Units, hlt, if_false]
+      rw [utf16Lossy_cons_pair _ _ _ (by omega) (by omega) (by omega) (by omega), ih']
+      simp only [List.cons.injEq, and_true]
+      omega
+
+theorem utf16Units_lt : ∀ (cs : List Nat), (∀ c ∈ cs, IsScalar c) → ∀ u ∈ utf16Units cs, u < 65536 := by
+  intro cs
+  induction cs with
+  | nil => intro _ u hu; simp [utf16Units] at hu
+  | cons c cs ih =>
+    intro h u hu
+    have hc := h c (by simp)
+    have ih' := ih (fun x hx => h x (by simp [hx]))
+    unfold IsScalar at hc
+    by_cases hlt : c < 0x10000
+    · simp only [utf16Units, hlt, if_true, List.mem_cons] at hu
+      rcases hu with rfl | hu
+      · omega
+      · exact ih' u hu
+    · simp only [utf16Units, hlt, if_false, List.mem_cons] at hu
+      rcases hu with e | e | hu
+      · rw [e]; omega
+      · rw [e]; omega
+      · exact ih' u hu
+
+theorem toNat_toUInt8 (n : Nat) (h : n < 256) : n.toUInt8.toNat = n := by
+  simp [Nat.toUInt8]; omega
+
+theorem pairsBE_beBytes : ∀ (us : List Nat), (∀ u ∈ us, u < 65536) → pairsBE (beBytes us) = us := by
+  intro us
+  induction us with
+  | nil => intro _; rfl
+  | cons u us ih =>
+    intro h
+    have hu := h u (by simp)
+    simp only [beBytes, pairsBE]
+    rw [ih (fun x hx => h x (by simp [hx])), toNat_toUInt8 _ (by omega), toNat_toUInt8 _ (by omega)]
+    congr 1; omega
+
+theorem beBytes_length (us : List Nat) : (beBytes us).length = 2 * us.length := by
+  induction us with
+  | nil => rfl
+  | cons u us ih => simp [beBytes, ih]; omega
+
+/-- the byte-order mark the builder writes is the one the reader tests first -/
+theorem bom_agree : OUTLINE_BOM = TOC_BOM_BE := by decide
+
+theorem ascii_bytes_all (t : List Nat) (h : ∀ c ∈ t, c < 128) :
+    (t.map Nat.toUInt8).all (fun (x : UInt8) => x < 128) = true := by
+  simp only [List.all_eq_true, List.mem_map, forall_exists_index, and_imp, decide_eq_true_eq]
+  intro x c hc e; subst e
+  rw [UInt8.lt_iff_toNat_lt]; simp [Nat.toUInt8]; have := h c hc; omega
+
+theorem ascii_bytes_back (t : List Nat) (h : ∀ c ∈ t, c < 128) :
+    (t.map Nat.toUInt8).map UInt8.toNat = t := by
+  induction t with
+  | nil => rfl
+  | cons c t ih =>
+    simp only [List.map_cons]
+    rw [ih (fun x hx => h x (by simp [hx])), toNat_toUInt8 c (by have := h c (by simp); omega)]
+
+/-- **title round trip.** Whatever string a bookmark carries (every Unicode scalar value, any
+length, including C0 controls, U+FEFF, astral planes), the bytes `outline_child` stores in `Title`
+decode in `get_toc` to the same string. -/
+theorem title_roundtrip (t : List Nat) (h : ∀ c ∈ t, IsScalar c) : decodeTitle (titleBytes t) = .ok t := by
+  unfold titleBytes
+  by_cases ha : isAsciiTitle t = true
+  · simp only [ha, if_true]
+    have hlt : ∀ c ∈ t, c < 128 := by
+      simpa [isAsciiTitle, List.all_eq_true] using ha
+    have hall := ascii_bytes_all t hlt
+    have hback := ascii_bytes_back t hlt
+    unfold decodeTitle
+    cases t with
+    | nil => simp
+    | cons a r =>
+      cases r with
+      | nil =>
+        simp only [List.map_cons, List.map_nil] at hall hback ⊢
+        simp only [hall, if_true, List.map_cons, List.map_nil, hback]
+      | cons b r' =>
+        simp only [List.map_cons] at hall hback ⊢
+        have ha : a < 128 := hlt a (by simp)
+        have hb : b < 128 := hlt b (by simp)
+        have h1 : ¬ [a.toUInt8, b.toUInt8] = TOC_BOM_BE := by
+          simp only [TOC_BOM_BE, List.cons.injEq, and_true, not_and]
+          intro e; have := congrArg UInt8.toNat e; rw [toNat_toUInt8 _ (by omega)] at this; simp at this; omega
+        have h2 : ¬ [a.toUInt8, b.toUInt8] = TOC_BOM_LE := by
+          simp only [TOC_BOM_LE, List.cons.injEq, and_true, not_and]
+          intro e; have := congrArg UInt8.toNat e; rw [toNat_toUInt8 _ (by omega)] at this; simp at this; omega
+        simp only [h1, h2, if_false, hall, if_true, hback]
+  · simp only [ha, Bool.false_eq_true, if_false]
+    have hu := utf16Units_lt t h
+    unfold decodeTitle
+    simp only [OUTLINE_BOM, List.cons_append, List.nil_append]
+    have h1 : [(254 : UInt8), 255] = TOC_BOM_BE := by decide
+    have hlen : ¬ ((254 : UInt8) :: 255 :: beBytes (utf16Units t)).length % 2 ≠ 0 := by
+      simp [beBytes_length]; omega
+    simp only [h1, if_true, hlen, if_false, pairsBE_beBytes _ hu, utf16_roundtrip t h]
+
+/-- distinct titles are stored as distinct byte strings (what `get_toc`'s title-keyed table needs) -/
+theorem titleBytes_injective (t1 t2 : List Nat) (h1 : ∀ c ∈ t1, IsScalar c) (h2 : ∀ c ∈ t2, IsScalar c)
+    (e : titleBytes t1 = titleBytes t2) : t1 = t2 := by
+  have a := title_roundtrip t1 h1
+  have b := title_roundtrip t2 h2
+  rw [e, b] at a
+  cases a; rfl
+
+example : decodeTitle (titleBytes [0x41, 0x0A, 0xE9, 0x1F600, 0xFEFF]) = .ok [0x41, 0x0A, 0xE9, 0x1F600, 0xFEFF] :=
+  title_roundtrip _ (by intro c hc; simp at hc; rcases hc with rfl | rfl | rfl | rfl | rfl <;> simp [IsScalar])
+
 end Lopdf
